@@ -99,7 +99,9 @@ def linear_spline(
 
     if inverse:
         outputs = outputs * (right - left) + left
+        logabsdet = logabsdet - np.log((top - bottom) / (right - left))
     else:
         outputs = outputs * (top - bottom) + bottom
+        logabsdet = logabsdet + np.log((top - bottom) / (right - left))
 
     return outputs, logabsdet
